@@ -20,13 +20,15 @@ ANCHORS = {
               ("n0struct_n0list_.py", ["n0list_._get", "n0list_.get", "n0list_.first", "n0list_.__getitem__"]),
               ("n0struct_n0dict_.py", ["n0dict_.xpath", "n0dict_.__xpath"])],
     "C07": [("n0struct_n0list_n0dict.py", ["n0dict.compare", "n0dict.direct_compare", "n0list.compare", "n0list.direct_compare"]), ("n0struct_utils_compare.py", [])],
-    "C11": [("n0struct_logging.py", ["n0pretty"]), ("n0struct_n0dict_.py", ["n0dict_.to_json"]), ("n0struct_n0list_.py", ["n0list_.to_json"])],
+    "C11": [("n0struct_logging.py", ["n0pretty"]), ("n0struct_n0dict_.py", ["n0dict_.to_json"]), ("n0struct_n0list_.py", ["n0list_.to_json"]),
+            ("n0struct_n0list_n0dict.py", ["n0dict.__init__", "n0list.__init__"])],
     "C12": [("n0struct_n0dict_.py", [])],
     "C13": [("n0struct_files_csv.py", ["parse_complex_csv_line", "generate_complex_csv_row"])],
     "C14": [("n0struct_files_csv.py", ["load_csv", "save_csv", "load_native_csv", "load_simple_csv", "parse_complex_csv_line"])],
     "C15": [("n0struct_files.py", [])],
     "C16": [("n0struct_utils.py", ["parse_tlv", "generate_tlv"]), ("n0struct_files_fwf.py", [])],
-    "C17": [("n0struct_utils.py", ["split_with_escape", "deserialize_list", "deserialize_key_value", "deserialize_dict", "serialize_dict", "unescape"]), ("n0struct_comprehensions.py", []), ("n0struct_arrays.py", [])],
+    "C17": [("n0struct_utils.py", ["split_with_escape", "deserialize_list", "deserialize_key_value", "deserialize_dict", "serialize_dict", "unescape", "isnumber", "iterable"]), ("n0struct_comprehensions.py", []), ("n0struct_arrays.py", []),
+            ("n0struct_files.py", ["save_file", "load_lines"])],
     "C18": [("n0struct_xml.py", [])],
     "C19": [("n0struct_findall.py", [])],
 }
